@@ -598,7 +598,7 @@ pub fn replay_history(_ctx: &Ctx, case: &Value) -> i32 {
 // =====================================================================================================
 
 /// E x max(L,1) signature with one unit entry per loop column: L matrix = diag(x_0..x_{L-1}), always decomposable
-fn ident_sig(g: &oracle::graph::OGraph) -> Vec<Vec<isize>> {
+pub fn ident_sig(g: &oracle::graph::OGraph) -> Vec<Vec<isize>> {
     let l = g.loop_number(g.full()).max(1);
     (0..g.ne()).map(|e| (0..l).map(|c| (e == c) as isize).collect()).collect()
 }
@@ -702,6 +702,9 @@ pub fn run_c18(ctx: &Ctx) -> i32 {
         was.push((0..ne).map(|e| 0.51 + 0.01 * e as f64).collect());
         was.push((0..ne).map(|e| [1.2, 0.52, 0.51][e % 3]).collect());
         was.push(vec![6.0; ne]);
+        // very large normalisations (beyond 2^63) and very small ones
+        was.push(vec![16.0; ne]);
+        was.push(vec![21.0; ne]);
         for massive in mass_patterns(ne) {
             for e in &ext {
                 for d in tier.pick(vec![3usize, 4], vec![1, 2, 3, 4, 5, 6]) {
